@@ -135,17 +135,36 @@ def draw_commute(data, tier):
             for s_ in steps:
                 P.draw_apply(state, s_)
             y = len(state.pool) - 1
+            if P.chance(data, 1, 3):     # pending transposes on the fused operands
+                pa = list(data.draw(st.permutations(list(range(state.pool[x].ndim)))))
+                pb = list(data.draw(st.permutations(list(range(state.pool[y].ndim)))))
+                P.draw_apply(state, {'op': 'transpose', 'x': x, 'axes': pa})
+                P.draw_apply(state, {'op': 'transpose', 'x': y, 'axes': pb})
+                x, y = len(state.pool) - 2, len(state.pool) - 1
+                ia, ib = [pa.index(i) for i in ia], [pb.index(i) for i in ib]
             P.draw_apply(state, {'op': 'tensordot', 'x': x, 'y': y, 'axes': [ia, ib], 'conj': list(conj), 'form': 'tuple', 'klass': klass})
         elif opn == 'add':
             for s_ in P.emit_add_partner(state, data, tier, x, klass):
                 P.draw_apply(state, s_)
-            P.draw_apply(state, {'op': 'add', 'x': x, 'y': len(state.pool) - 1, 'f': data.draw(st.sampled_from(['add', 'sub'])), 'klass': klass})
+            y = len(state.pool) - 1
+            if P.chance(data, 1, 2) and state.pool[x].ndim >= 2:     # the same pending transpose on both fused operands
+                pa = list(data.draw(st.permutations(list(range(state.pool[x].ndim)))))
+                P.draw_apply(state, {'op': 'transpose', 'x': x, 'axes': pa})
+                P.draw_apply(state, {'op': 'transpose', 'x': y, 'axes': pa})
+                x, y = len(state.pool) - 2, len(state.pool) - 1
+            P.draw_apply(state, {'op': 'add', 'x': x, 'y': y, 'f': data.draw(st.sampled_from(['add', 'sub'])), 'klass': klass})
         elif opn == 'vdot':
             A = a.conj()
             legs = [ELeg(-l.s, P.perturb_table(data, state.sym, tier, l.tD, klass)) for l in A.legs]
             for s_ in P.emit_new_like(state, data, tier, A.tree, legs, n=C.gneg(state.sym, A.n)):
                 P.draw_apply(state, s_)
-            P.draw_apply(state, {'op': 'vdot', 'x': x, 'y': len(state.pool) - 1, 'conj': [1, 0], 'klass': klass})
+            y = len(state.pool) - 1
+            if P.chance(data, 1, 2) and state.pool[x].ndim >= 2:
+                pa = list(data.draw(st.permutations(list(range(state.pool[x].ndim)))))
+                P.draw_apply(state, {'op': 'transpose', 'x': x, 'axes': pa})
+                P.draw_apply(state, {'op': 'transpose', 'x': y, 'axes': pa})
+                x, y = len(state.pool) - 2, len(state.pool) - 1
+            P.draw_apply(state, {'op': 'vdot', 'x': x, 'y': y, 'conj': [1, 0], 'klass': klass})
         else:
             steps, axes = P.emit_trace_ready(state, data, tier, klass)
             for s_ in steps:
